@@ -137,6 +137,16 @@ func (s *scheduler) park(site string) {
 
 func hookGate(site string) { sch.park(site) }
 
+// roleName: the role of the calling goroutine ("?" when it has none).
+func (s *scheduler) roleName() string {
+	s.mu.Lock()
+	defer s.mu.Unlock()
+	if r := s.byGid[goid()]; r != nil {
+		return r.name
+	}
+	return "?"
+}
+
 func hookSpawn(site string) int {
 	sch.park(site)
 	sch.mu.Lock()
